@@ -23,6 +23,8 @@ use std::task::Poll;
 #[derive(Default)]
 struct World {
     chooser: Option<SharedChooser>,
+    /// real time the function `slow` sleeps (milliseconds)
+    slow_ms: u64,
     max_susp: u32,
     current: usize,
     log: Vec<(usize, String, RV)>,
@@ -44,6 +46,12 @@ fn handler(world: &Arc<Mutex<World>>) -> Handler {
             (Some(c), m) if m > 0 => c.lock().unwrap().choose(m + 1),
             _ => 0,
         };
+        if name == "slow" && g.slow_ms > 0 {
+            let ms = g.slow_ms;
+            drop(g);
+            std::thread::sleep(std::time::Duration::from_millis(ms));
+            return (Ok(Value::Int(0)), 0);
+        }
         let r = if name == "bad" {
             Err(anyhow::Error::new(Injected(0)))
         } else if name == "conv" {
@@ -122,7 +130,7 @@ fn build(rules: &[String], world: &Arc<Mutex<World>>) -> Result<RuleSet, String>
         let e = rule_expr(text)?;
         b = b.with_rule(Rule::new(format!("r{i}"), BTreeMap::new(), e)).map_err(|e| e.to_string())?;
     }
-    for (n, c) in [("c", true), ("n", false), ("bad", true), ("conv", false)] {
+    for (n, c) in [("c", true), ("n", false), ("bad", true), ("conv", false), ("slow", false)] {
         b = b.with_function(probe(n, c, &h)).map_err(|e| e.to_string())?;
     }
     Ok(b.build())
@@ -703,6 +711,68 @@ fn rule_reuse_leg(acc: &mut Acc) {
     acc.outcome("rule-reuse");
 }
 
+/// Real time must not be an input: one evaluation in which `secs` seconds of wall-clock time pass
+/// (inside a user function) between two uses of the same cacheable call gives the outcomes and the
+/// call log of the instantaneous run.  (reval reads no clock today; a bounded wait is all a check
+/// can do about one it might read tomorrow, so the scan of /repo/src for clock reads is reported
+/// next to it.)
+fn real_time_leg(acc: &mut Acc, secs: u64) {
+    let rules: Vec<String> = ["c(id)", "slow(i0)", "[c(id), n(id), c(other)]", "c(id) == c(id)"].iter().map(|s| s.to_string()).collect();
+    let input = RV::map(&[("id", RV::Int(1)), ("other", RV::Int(2))]);
+    let (base_out, base_log) = match baseline(&rules, &input) {
+        Ok(b) => b,
+        Err(m) => return acc.machinery(m),
+    };
+    let world = Arc::new(Mutex::new(World::default()));
+    let rs = match build(&rules, &world) {
+        Ok(r) => r,
+        Err(m) => return acc.machinery(m),
+    };
+    world.lock().unwrap().slow_ms = secs * 1000;
+    acc.count("executions", 1);
+    let facts = input.to_value();
+    let got = match catch(|| crate::engine::exec::block_on(rs.evaluate_value(&facts))) {
+        Ok(Ok(o)) => owned(o),
+        other => Err(format!("{:?}", other.map(|_| ()))),
+    };
+    let log: Vec<(String, RV)> = world.lock().unwrap().log.iter().map(|(_, n, a)| (n.clone(), a.clone())).collect();
+    if got.as_ref().ok() != Some(&base_out) || log != base_log {
+        let f = |l: &[(String, RV)]| l.iter().map(|(n, a)| format!("{n}({})", a.show())).collect::<Vec<_>>().join(" ");
+        acc.violation(Violation {
+            sig: "real-time/outcome-or-calls".into(),
+            what: format!("an evaluation during which {secs} s of real time pass inside a user function made the calls [{}] and returned {:?}; the instantaneous run makes [{}]", f(&log), got.as_ref().map(|o| o.iter().map(|x| x.1.show()).collect::<Vec<_>>()), f(&base_log)),
+            case: json!({"kind": "real-time", "seconds": secs}),
+            size: secs as usize,
+        });
+    }
+    acc.outcome("real-time");
+}
+
+/// source lines of reval that read a clock or a random source
+fn clock_scan() -> Vec<String> {
+    let mut hits = Vec::new();
+    fn walk(dir: &std::path::Path, hits: &mut Vec<String>) {
+        if let Ok(rd) = std::fs::read_dir(dir) {
+            for e in rd.flatten() {
+                let p = e.path();
+                if p.is_dir() {
+                    walk(&p, hits);
+                } else if p.extension().map(|x| x == "rs" || x == "lalrpop").unwrap_or(false) {
+                    if let Ok(text) = std::fs::read_to_string(&p) {
+                        for (i, l) in text.lines().enumerate() {
+                            if ["Instant::now", "SystemTime::now", "Utc::now", "Local::now", "elapsed()", "rand::", "RandomState", "thread_rng", "getrandom"].iter().any(|k| l.contains(k)) && !l.trim_start().starts_with("//") {
+                                hits.push(format!("{}:{}: {}", p.display(), i + 1, l.trim()));
+                            }
+                        }
+                    }
+                }
+            }
+        }
+    }
+    walk(&std::path::Path::new(&crate::engine::report::repo_dir()).join("src"), &mut hits);
+    hits
+}
+
 /// state that builds up over many *different* inputs (process-wide memo tables, bounded caches):
 /// evaluate N distinct inputs, then the first ones again; every outcome must equal the one the same
 /// input produced the first time round and the reference value
@@ -915,6 +985,15 @@ pub fn run(tier: Tier) -> i32 {
     }
     rep.bound("crowd_sizes", crowd);
     rule_reuse_leg(&mut acc);
+    let wait = tier.pick(6u64, 65u64);
+    real_time_leg(&mut acc, wait);
+    rep.bound("real_time_wait_seconds", wait);
+    let clock = clock_scan();
+    if !clock.is_empty() {
+        println!("WARNING property=C12 reval now reads a clock or a random source ({} source lines, see clock_scan in the evidence); the schedule exploration runs in virtual time and only the {wait} s real-time leg can observe it", clock.len());
+        rep.note(format!("{} source lines reading a clock / random source", clock.len()));
+    }
+    rep.extra.insert("clock_scan".into(), json!(clock));
     expr_leg(&mut acc);
     many_inputs_leg(&mut acc, tier.pick(300, 3000));
     rep.absorb(acc);
@@ -970,6 +1049,7 @@ pub fn replay(case: &serde_json::Value) -> i32 {
         "crowd" => crowd_leg(&mut acc, case.get("n").and_then(|n| n.as_u64()).unwrap_or(17) as usize),
         "pile-up" => pile_up_leg(&mut acc, case.get("n").and_then(|n| n.as_u64()).unwrap_or(8) as usize),
         "rule-reuse" => rule_reuse_leg(&mut acc),
+        "real-time" => real_time_leg(&mut acc, case.get("seconds").and_then(|n| n.as_u64()).unwrap_or(6)),
         "many-inputs" => many_inputs_leg(&mut acc, 300),
         "repetition" | "long-history" => {
             let fname = case.get("family").and_then(|f| f.as_str()).unwrap_or("");
